@@ -237,6 +237,8 @@ def h07_e2e(S, backend="mem"):
         out["sent"], out["got"] = sent, got
         if got is not None:
             out["payload"] = await _Processor(conn).get_payload(got[1])
+            # a later delivery of the same message (retry, recurring run, redelivery after a stop) resolves the same reference again
+            out["payload_again"] = await _Processor(conn).get_payload(got[1])
         out["serialized"] = None if value is None else Config.SERIALIZER(value)
         out["again"] = None
         if got is not None and not delayed and not bucket and S.flag("then_requeued_with_another_payload"):
@@ -258,6 +260,7 @@ def h07_e2e(S, backend="mem"):
     same(S, "key", sent[0], got[0])
     S.check("payload-as-enqueued", out["payload"] == sent[1], info=f"{out['payload']!r} vs {sent[1]!r}")
     S.check("payload-is-the-serialised-arguments", out["payload"] == (out["serialized"] or ""))
+    S.check("payload-as-enqueued-on-a-later-delivery", out["payload_again"] == out["payload"], info=f"second resolution of the same reference: {out['payload_again']!r}")
     import json
     import pydantic
     if isinstance(value, pydantic.BaseModel):
